@@ -21,11 +21,18 @@ Definition bitop_il_exec (op : string) (aty : vtype) (a b : pure) : pure :=
   else PBin BShl0 a b.
 
 (* ArithmeticOp.il_exec (integer operands) *)
-Definition arith_il_exec (o : binop) (ta tb : vtype) (a b : pure) : pure := PBin o a b.
+Definition float_head (o : binop) : string :=
+  match o with BAdd => "FADD" | BSub => "FSUB" | BMul => "FMUL" | BDiv | BSDiv => "FDIV" | _ => "FMOD" end.
+Definition arith_il_exec (o : binop) (ta tb : vtype) (a b : pure) : pure :=
+  if vt_float ta && vt_float tb then PApp (float_head o) [PApp "HEX_GET_INSN_RMODE" [PRaw "hi"]; a; b] else PBin o a b.
 
 (* CompareOp.il_exec *)
 Definition cmp_il_exec (op : string) (ta tb : vtype) (a b : pure) : pure :=
   let s := vt_sg ta || vt_sg tb in
+  if vt_float ta && vt_float tb then
+    (if String.eqb op "<" then PApp "FLT" [a; b] else if String.eqb op ">" then PApp "FGT" [a; b]
+     else if String.eqb op "<=" then PApp "FLE" [a; b] else if String.eqb op ">=" then PApp "FGE" [a; b]
+     else if String.eqb op "==" then PApp "FEQ" [a; b] else PApp "FINV(EQ" [a; b]) else
   if String.eqb op "<" then PCmp (if s then CSlt else CUlt) a b
   else if String.eqb op ">" then PCmp (if s then CSgt else CUgt) a b
   else if String.eqb op "<=" then PCmp (if s then CSle else CUle) a b
